@@ -961,9 +961,10 @@ impl World {
         let items_after = self.reps[r].be.snapshot();
         {
             let (cls, extra) = match &res {
-                Ok(None) => ("none", json!({})),
+                Ok(None) => ("none", json!({"info": info})),
                 Ok(Some(a)) => ("ok", json!({"id": a.iter().next().map(|x| x.to_string()), "info": info})),
-                Err(_) => ("err", json!({})),
+                Err(e) if e.to_string().starts_with("information_nested_too_deeply") => ("refused", json!({"info": info})),
+                Err(_) => ("err", json!({"info": info})),
             };
             self.emit("commit", r, cls, extra);
         }
@@ -1848,10 +1849,13 @@ impl World {
                 let unchanged = obs_full(m) == before;
                 match res {
                     Err(_) => self.fail("C08", format!("commit with information nested {} deep aborted", depth)),
-                    Ok(Err(_)) => {
+                    Ok(Err(e)) => {
                         if !unchanged {
                             self.fail("C09", "a refused commit changed the replica".into());
                         }
+                        // the model has the same guard and must refuse too
+                        let cls = if e.to_string().starts_with("information_nested_too_deeply") { "refused" } else { "err" };
+                        self.emit("commit", r, cls, json!({"info": info}));
                     }
                     Ok(Ok(a)) => {
                         // accepted: then it must be durable like any other commit
@@ -1865,6 +1869,20 @@ impl World {
                             self.fail("C13", format!("a commit with information nested {} deep was accepted but a reopened replica does not see it", depth));
                         }
                     }
+                }
+            }
+            "obj" => {
+                // through the object API, on an object outside the document: create (or update) with a deep body;
+                // refused => nothing changes; accepted => durable like any other object
+                let m = self.reps[r].m.as_ref().unwrap();
+                let before = obs_full(m);
+                let body = json!({ "deep": v, "w": depth });
+                let call = if m.get_all_objects().contains("deepobj") { "update" } else { "create" };
+                self.op_objapi(r, &json!({"call": call, "uuid": "deepobj", "obj": body}));
+                let m = self.reps[r].m.as_ref().unwrap();
+                let accepted = m.get_value("deepobj", None).map(|x| x.get("w") == Some(&json!(depth))).unwrap_or(false);
+                if !accepted && obs_full(m) != before {
+                    self.fail("C04", format!("a refused object (nested {} deep) changed the replica", depth));
                 }
             }
             _ => {
@@ -1886,6 +1904,8 @@ impl World {
                         if !unchanged {
                             self.fail("C04", "a refused update changed the replica".into());
                         }
+                        // the model has the same guard and must refuse too
+                        self.emit("update", r, "err", json!({"doc": doc}));
                     }
                 }
             }
@@ -3127,7 +3147,7 @@ pub fn gen_op(w: &World, g: &mut Rng, sim_faults: bool) -> Value {
         }
         97 => {
             if g.chance(1, 3) {
-                json!({"op": "deep", "r": r, "depth": *g.pick(&[60usize, 98, 99, 100, 127, 130, 300]), "where": *g.pick(&["doc", "doc", "info"])})
+                json!({"op": "deep", "r": r, "depth": *g.pick(&[60usize, 98, 99, 100, 127, 130, 300]), "where": *g.pick(&["doc", "doc", "info", "obj"])})
             } else {
                 json!({"op": "faults", "r": r, "seed": g.next() % 100000})
             }
